@@ -34,6 +34,9 @@ void harness(void) {
 	bn_make(&b, &IN.b, CA, DB);
 	bn_make(&m, &IN.m, CA, DM);
 	bn_make(&g, &IN.g, CA, 0);
+#ifdef MFIX	/* concrete one-digit modulus of the job (shape); storage above it stays symbolic */
+	m.num[0] = (MFIX); m.digits = 1;
+#endif
 	const val_t va = bn_value(&a), vb = bn_value(&b), vm = bn_value(&m);
 	int r;
 	(void)vb; (void)vm; (void)r; (void)g;
